@@ -90,7 +90,20 @@ def com_prog(ctx):
                     pts = [x for x in LAY.split_points(l) if x[1] == 0]
                     lab, nm, body = LAY.oracle_item(l)
                     pts = [x for x in pts if x[0] > (0 if lab is None else 1) + (0 if nm is None else 2)]
-                    if pts:
+                    lits = [x for x in LAY.split_points(l) if x[1] > 0 and LAY.tok_spans(l)[x[0]][0] == "s"]
+                    if lits and (i + len(l)) % 2:
+                        # inside a character literal: no trailing comment is possible on the first
+                        # part; the symbolic comment is the line between the two halves
+                        j, o = lits[len(lits) // 2]
+                        lay = LAY.free_layout(l, j, o, True, None, ["   " + text])
+                        if lay is not None:
+                            phys = lay[0]
+                            phys[-1] = phys[-1] + " ! end %d" % i
+                            out += phys
+                            expect.append(("full", text))
+                            expect.append(("trail", "! end %d" % i))
+                            done = True
+                    if pts and not done:
                         j, o = pts[len(pts) // 2]
                         lay = LAY.free_layout(l, j, o, True, text[1:], ["   ! between parts %d" % i])
                         if lay is not None:
